@@ -120,6 +120,15 @@ func H_C20_backprop() {
 			vrt.Assume(false)
 		}
 		y = y.Tanh()
+		// ops that hand their operands to the backward edges directly (no implicit Broadcast copy)
+		y, err = y.ElMax(shared1)
+		if err != nil {
+			vrt.Assume(false)
+		}
+		y, err = tensor.Concat([]T{y, shared2}, 0)
+		if err != nil {
+			vrt.Assume(false)
+		}
 		if tensor.BackPropagate(y) != nil {
 			vrt.Assert("back-propagation succeeds", false)
 		}
@@ -136,7 +145,11 @@ func H_C20_backprop() {
 	vrt.Concurrently(3, func(i int) {
 		if y, e := priv[i].Mul(shared1); e == nil {
 			if y, e = y.MatMul(shared2); e == nil {
-				tensor.BackPropagate(y.Tanh())
+				if y, e = y.Tanh().ElMax(shared1); e == nil {
+					if y, e = tensor.Concat([]T{y, shared2}, 0); e == nil {
+						tensor.BackPropagate(y)
+					}
+				}
 			}
 		}
 	})
